@@ -77,3 +77,15 @@ package m
 //@   modifies nothing
 //@   update when result == nil: addr.verified = true
 //@   ensures accepted-only-if-valid [C01,C13]: result == nil ==> hashvalid(addr.Hash) && addr.Type == "Ed25519" && len(addr.PublicKey) == 32 && addr.IP.IsValid()
+
+// An Address (an identity with its private key) only leaves its constructors after both key sizes were checked.
+//@ type Address
+//@   invariant identity-keys [C01,C13]: len(self.PrivateKey) == 64 && len(self.PublicKey) == 32
+
+// Identities loaded from configuration/storage, derived from a key pair or generated pass the identity check.
+//@ func AddressFromStorage
+//@   ensures verified-identity [C01]: result1 == nil ==> result0 != nil && result0.PublicAddress.verified && hashvalid(result0.Hash)
+//@ func AddressFromKeyPair
+//@   ensures verified-identity [C01]: result1 == nil ==> result0 != nil && result0.PublicAddress.verified && hashvalid(result0.Hash)
+//@ func PublicAddressFromKeyPair
+//@   ensures verified-identity [C01]: result1 == nil ==> result0 != nil && result0.verified && hashvalid(result0.Hash)
